@@ -29,7 +29,7 @@ Section Assoc.
   Qed.
 
   Lemma lookup_nat_nth (l : list (nat * B)) (i : nat) (d : nat * B) :
-    NoDup (map fst l) -> i < length l -> lookup_nat (fst (nth i l d)) l = Some (snd (nth i l d)).
+    NoDup (map fst l) -> i < List.length l -> lookup_nat (fst (nth i l d)) l = Some (snd (nth i l d)).
   Proof.
     revert i. induction l as [|[k w] l IH]; intros i ND Hi; simpl in Hi; [lia|].
     simpl in ND. inversion ND as [|? ? Hnot ND']; subst.
@@ -51,8 +51,6 @@ Section Assoc.
     intros q Hq. destruct (Nat.eqb_spec k q) as [->|_]; [contradiction|reflexivity].
   Qed.
 End Assoc.
-
-Lemma flat_map_ext_in' : True. Proof. exact I. Qed.
 
 Section P.
   Variable V : Type.
@@ -85,8 +83,8 @@ Section P.
   (* ---------- zip_derive / index_derive ---------- *)
   Lemma zip_derive_spec (f : nat -> V -> res (spec V)) : forall ids ms a,
     zip_derive V f ids ms = Ok a ->
-    length a = Nat.min (length ids) (length ms) /\
-    (forall i d dm de, i < length a -> entry_ok f (nth i ids d) (nth i ms dm) (nth i a de)).
+    List.length a = Nat.min (List.length ids) (List.length ms) /\
+    (forall i d dm de, i < List.length a -> entry_ok f (nth i ids d) (nth i ms dm) (nth i a de)).
   Proof.
     induction ids as [|q ids IH]; intros ms a E; simpl in E.
     - inversion E; subst. split; [reflexivity|]. intros i d dm de Hi. simpl in Hi. lia.
@@ -101,8 +99,8 @@ Section P.
 
   Lemma index_derive_spec (f : nat -> V -> res (spec V)) : forall ids ms a,
     index_derive V f ids ms = Ok a ->
-    length a = length ids /\ length ids <= length ms /\
-    (forall i d dm de, i < length a -> entry_ok f (nth i ids d) (nth i ms dm) (nth i a de)).
+    List.length a = List.length ids /\ List.length ids <= List.length ms /\
+    (forall i d dm de, i < List.length a -> entry_ok f (nth i ids d) (nth i ms dm) (nth i a de)).
   Proof.
     induction ids as [|q ids IH]; intros ms a E; simpl in E.
     - inversion E; subst. split; [reflexivity|]. split; [simpl; lia|]. intros i d dm de Hi. simpl in Hi. lia.
@@ -117,7 +115,7 @@ Section P.
   Qed.
 
   Lemma zip_derive_total (f : nat -> V -> res (spec V)) (d : nat) (dm : V) : forall ids ms,
-    (forall i, i < length ids -> i < length ms -> exists s, f (nth i ids d) (nth i ms dm) = Ok s) ->
+    (forall i, i < List.length ids -> i < List.length ms -> exists s, f (nth i ids d) (nth i ms dm) = Ok s) ->
     exists a, zip_derive V f ids ms = Ok a.
   Proof.
     induction ids as [|q ids IH]; intros ms H; simpl; [eexists; reflexivity|].
@@ -129,8 +127,8 @@ Section P.
   Qed.
 
   Lemma index_derive_total (f : nat -> V -> res (spec V)) (d : nat) (dm : V) : forall ids ms,
-    length ids <= length ms ->
-    (forall i, i < length ids -> exists s, f (nth i ids d) (nth i ms dm) = Ok s) ->
+    List.length ids <= List.length ms ->
+    (forall i, i < List.length ids -> exists s, f (nth i ids d) (nth i ms dm) = Ok s) ->
     exists a, index_derive V f ids ms = Ok a.
   Proof.
     induction ids as [|q ids IH]; intros ms L H; simpl; [eexists; reflexivity|].
@@ -144,16 +142,16 @@ Section P.
 
   (* a list of entries that follows ids position by position *)
   Definition follows (f : nat -> V -> res (spec V)) (ids : list nat) (ms : list V) (a : arguments V) : Prop :=
-    length a <= length ids /\ forall i d dm de, i < length a -> entry_ok f (nth i ids d) (nth i ms dm) (nth i a de).
+    List.length a <= List.length ids /\ forall i d dm de, i < List.length a -> entry_ok f (nth i ids d) (nth i ms dm) (nth i a de).
 
-  Lemma follows_keys f ids ms a : follows f ids ms a -> map fst a = firstn (length a) ids.
+  Lemma follows_keys f ids ms a : follows f ids ms a -> map fst a = firstn (List.length a) ids.
   Proof.
     intros [L N]. apply (nth_ext _ _ 0 0).
     - rewrite map_length, firstn_length. lia.
     - intros i Hi. rewrite map_length in Hi.
       rewrite (nth_indep _ 0 (fst (0, (0, Build_spec V FUniform ninf ninf ninf ninf None)))) by (rewrite map_length; exact Hi).
       rewrite map_nth. destruct (N i 0 ninf (0, (0, Build_spec V FUniform ninf ninf ninf ninf None)) Hi) as [E _].
-      rewrite E. rewrite nth_firstn. destruct (Nat.ltb_spec i (length a)); [reflexivity|lia].
+      rewrite E. rewrite nth_firstn_lt by exact Hi. reflexivity.
   Qed.
 
   Lemma follows_diag f ids ms a : follows f ids ms a -> diag a.
@@ -225,20 +223,20 @@ Section P.
 
   (* ---------- own value: the i-th parameter's new prior is derived from the i-th value ---------- *)
   Lemma covered_full (f : nat -> V -> res (spec V)) (ids : list nat) (ms : list V) (a : arguments V) :
-    follows f ids ms a -> NoDup ids -> (forall q, In q ids -> In q (map fst a)) -> length a = length ids.
+    follows f ids ms a -> NoDup ids -> (forall q, In q ids -> In q (map fst a)) -> List.length a = List.length ids.
   Proof.
     intros F ND C. assert (K := follows_keys _ _ _ _ F). destruct F as [L _].
-    destruct (Nat.eq_dec (length a) (length ids)) as [E|Hne]; [exact E|exfalso].
-    assert (Hlt : length a < length ids) by lia.
-    assert (Hin : In (nth (length a) ids 0) (firstn (length a) ids)).
+    destruct (Nat.eq_dec (List.length a) (List.length ids)) as [E|Hne]; [exact E|exfalso].
+    assert (Hlt : List.length a < List.length ids) by lia.
+    assert (Hin : In (nth (List.length a) ids 0) (firstn (List.length a) ids)).
     { rewrite <- K. apply C. apply nth_In. exact Hlt. }
-    rewrite <- (firstn_skipn (length a) ids) in ND. apply NoDup_app_remove_l in ND as ND2.
-    assert (Hs : In (nth (length a) ids 0) (skipn (length a) ids)).
-    { rewrite <- (firstn_skipn (length a) ids) at 1. rewrite app_nth2; rewrite firstn_length, Nat.min_l by lia; [|lia].
-      rewrite Nat.sub_diag. destruct (skipn (length a) ids) eqn:Es.
-      - exfalso. assert (X := skipn_length (length a) ids). rewrite Es in X. simpl in X. lia.
+    rewrite <- (firstn_skipn (List.length a) ids) in ND. apply NoDup_app_remove_l in ND as ND2.
+    assert (Hs : In (nth (List.length a) ids 0) (skipn (List.length a) ids)).
+    { rewrite <- (firstn_skipn (List.length a) ids) at 1. rewrite app_nth2; rewrite firstn_length, Nat.min_l by lia; [|lia].
+      rewrite Nat.sub_diag. destruct (skipn (List.length a) ids) eqn:Es.
+      - exfalso. assert (X := skipn_length (List.length a) ids). rewrite Es in X. simpl in X. lia.
       - left. reflexivity. }
-    clear ND2. revert Hin Hs ND. generalize (firstn (length a) ids) (skipn (length a) ids) (nth (length a) ids 0).
+    clear ND2. revert Hin Hs ND. generalize (firstn (List.length a) ids) (skipn (List.length a) ids) (nth (List.length a) ids 0).
     intros l1 l2 x H1 H2 ND. induction l1 as [|y l1 IH]; [contradiction|].
     simpl in ND. inversion ND as [|? ? Hnot ND']; subst. destruct H1 as [->|H1].
     - apply Hnot. apply in_or_app. right. exact H2.
@@ -247,7 +245,7 @@ Section P.
 
   Lemma pass_kept_specs (md : mode V) (n n' : node) (sp : list (nat * spec V)) :
     wf V n -> keeps_ids md -> PASS md n = Ok (n', sp) ->
-    exists a f ms, MARGS md n = Ok a /\ follows f (ordered_ids V n) ms a /\ length a = prior_count V n /\
+    exists a f ms, MARGS md n = Ok a /\ follows f (ordered_ids V n) ms a /\ List.length a = prior_count V n /\
                    sp = map snd a /\
                    match md with
                    | MMeans a' r nl means => f = DM a' r nl n /\ ms = means
@@ -261,7 +259,7 @@ Section P.
     destruct (mode_args_follows md n a K Ea) as [f [ms [F M]]].
     exists a, f, ms. split; [reflexivity|]. split; [exact F|].
     assert (D := follows_diag _ _ _ _ F).
-    assert (Len : length a = length (ordered_ids V n)).
+    assert (Len : List.length a = List.length (ordered_ids V n)).
     { apply (covered_full f _ ms a F (PAFC01.Proofs2.ordered_ids_nodup V n)).
       intros q Hq. apply PAFC01.Proofs2.ordered_ids_in in Hq.
       assert (X := rebuild_defined V (sigma_of V a) n W n' Er q Hq).
@@ -277,13 +275,13 @@ Section P.
 
   Theorem own_value (a' r : option V) (nl : bool) (means : list V) (n n' : node) (sp : list (nat * spec V)) :
     wf V n -> PASS (MMeans a' r nl means) n = Ok (n', sp) ->
-    map fst sp = ordered_ids V n /\ prior_count V n <= length means /\
+    map fst sp = ordered_ids V n /\ prior_count V n <= List.length means /\
     forall i d dm, i < prior_count V n ->
       exists s, nth_error sp i = Some (nth i (ordered_ids V n) d, s) /\
                 DM a' r nl n (nth i (ordered_ids V n) d) (nth i means dm) = Ok s.
   Proof.
     intros W E. destruct (pass_kept_specs _ n n' sp W I E) as [a [f [ms [Ea [F [Len [Esp [Ef Ems]]]]]]]]. subst f ms.
-    assert (L2 : length a = Nat.min (length (ordered_ids V n)) (length means)) by (simpl in Ea; apply (zip_derive_spec _ _ _ _ Ea)).
+    assert (L2 : List.length a = Nat.min (List.length (ordered_ids V n)) (List.length means)) by (simpl in Ea; apply (zip_derive_spec _ _ _ _ Ea)).
     rewrite PAFC01.Proofs2.ordered_ids_length in L2.
     split; [|split; [lia|]].
     - subst sp. rewrite map_map. rewrite <- (firstn_all (ordered_ids V n)).
@@ -291,7 +289,7 @@ Section P.
       apply map_ext_in. intros e He. assert (D := follows_diag _ _ _ _ F). unfold diag in D. rewrite Forall_forall in D. apply (D e He).
     - intros i d dm Hi. destruct F as [_ N].
       set (de := (0, (0, Build_spec V FUniform ninf ninf ninf ninf None))).
-      assert (Hi' : i < length a) by lia. destruct (N i d dm de Hi') as [E1 [E2 E3]].
+      assert (Hi' : i < List.length a) by lia. destruct (N i d dm de Hi') as [E1 [E2 E3]].
       exists (snd (snd (nth i a de))). split; [|exact E3].
       subst sp. rewrite nth_error_map. rewrite (nth_error_nth' a de Hi'). simpl.
       rewrite (surjective_pairing (snd (nth i a de))). rewrite E2. reflexivity.
@@ -299,13 +297,13 @@ Section P.
 
   Theorem own_value_bounded (b : V) (floats : list V) (n n' : node) (sp : list (nat * spec V)) :
     wf V n -> PASS (MBounded b floats) n = Ok (n', sp) ->
-    map fst sp = ordered_ids V n /\ prior_count V n <= length floats /\
+    map fst sp = ordered_ids V n /\ prior_count V n <= List.length floats /\
     forall i d dm, i < prior_count V n ->
       exists s, nth_error sp i = Some (nth i (ordered_ids V n) d, s) /\
                 DB b (nth i (ordered_ids V n) d) (nth i floats dm) = Ok s.
   Proof.
     intros W E. destruct (pass_kept_specs _ n n' sp W I E) as [a [f [ms [Ea [F [Len [Esp [Ef Ems]]]]]]]]. subst f ms.
-    assert (L2 : length (ordered_ids V n) <= length floats) by (simpl in Ea; apply (index_derive_spec _ _ _ _ Ea)).
+    assert (L2 : List.length (ordered_ids V n) <= List.length floats) by (simpl in Ea; apply (index_derive_spec _ _ _ _ Ea)).
     rewrite PAFC01.Proofs2.ordered_ids_length in L2.
     split; [|split; [lia|]].
     - subst sp. rewrite map_map. rewrite <- (firstn_all (ordered_ids V n)).
@@ -313,7 +311,7 @@ Section P.
       apply map_ext_in. intros e He. assert (D := follows_diag _ _ _ _ F). unfold diag in D. rewrite Forall_forall in D. apply (D e He).
     - intros i d dm Hi. destruct F as [_ N].
       set (de := (0, (0, Build_spec V FUniform ninf ninf ninf ninf None))).
-      assert (Hi' : i < length a) by lia. destruct (N i d dm de Hi') as [E1 [E2 E3]].
+      assert (Hi' : i < List.length a) by lia. destruct (N i d dm de Hi') as [E1 [E2 E3]].
       exists (snd (snd (nth i a de))). split; [|exact E3].
       subst sp. rewrite nth_error_map. rewrite (nth_error_nth' a de Hi'). simpl.
       rewrite (surjective_pairing (snd (nth i a de))). rewrite E2. reflexivity.
@@ -367,7 +365,7 @@ Section P.
   Qed.
 
   Theorem total_means (a' r : option V) (nl : bool) (means : list V) (n : node) :
-    wf V n -> prior_count V n <= length means ->
+    wf V n -> prior_count V n <= List.length means ->
     (forall i d dm, i < prior_count V n -> exists s, DM a' r nl n (nth i (ordered_ids V n) d) (nth i means dm) = Ok s) ->
     exists n' sp, PASS (MMeans a' r nl means) n = Ok (n', sp).
   Proof.
@@ -383,7 +381,7 @@ Section P.
   Qed.
 
   Theorem total_bounded (b : V) (floats : list V) (n : node) :
-    wf V n -> prior_count V n <= length floats ->
+    wf V n -> prior_count V n <= List.length floats ->
     (forall i dm, i < prior_count V n -> bad_limits (uf_lo (nth i floats dm) b) (uf_hi (nth i floats dm) b) = false) ->
     exists n' sp, PASS (MBounded b floats) n = Ok (n', sp).
   Proof.
